@@ -149,6 +149,10 @@ func C11(cfg Cfg) int {
 		_ = rig.NewBaseDir(baseO)
 		_ = rig.NewBaseDir(baseR)
 		keys := rig.DetKeys(fmt.Sprintf("c11-%d", h), 3)
+		if h%2 == 1 {
+			keys[2] = rig.OpaqueKey(fmt.Sprintf("c11-%d", h), [][]byte{{0x00}, {0x0a}, {0x00, 0x00, 0x07}, {0x01}, {0x00, 0x30}}[(h/2)%5]...)
+			run.Distinct(fmt.Sprintf("opaque key prefix %x", keys[2].Pub[:2]))
+		}
 		svc, err := rig.OpenRules(baseO)
 		if err != nil {
 			run.Inconclusive(err.Error())
